@@ -20,7 +20,8 @@ Proof.
     rewrite <- E1, <- E2 in *.
     destruct s as [p ty [i|]| |x semi]; try reflexivity.
     + destruct (ev e i) as [[e1 r|e1 v]|]; cbn [bindF]; try reflexivity.
-      destruct (as_val e1 r); try reflexivity. destruct (bind_pat p v e1); try reflexivity. apply IH.
+      destruct (match p with PStruct _ _ _ => as_data e1 r | _ => as_val e1 r end); try reflexivity.
+      destruct (bind_pat p v e1); try reflexivity. apply IH.
     + rewrite E1, E2. rewrite <- E1, <- E2. apply IH.
     + destruct (ev e x) as [[e1 r|e1 v]|]; cbn [bindF]; try reflexivity. rewrite E1, E2, <- E1, <- E2. apply IH.
 Qed.
